@@ -153,7 +153,14 @@ class Repo:
                 st["guards"] = normalize.normalise_guards(tree, name)
                 for k, v in st.items():
                     self.normalised[k] = self.normalised.get(k, 0) + v
-                self.reshaped += alpha.canonicalise_shapes(tree, name)
+                n_shapes = alpha.canonicalise_shapes(tree, name)
+                self.reshaped += n_shapes
+                # the normaliser only ever rewrites towards the reference form, so on a module that is byte-identical to the one
+                # the reference table was generated from it must be the identity - checked on every run
+                sha = hashlib.sha256(raw).hexdigest()
+                if normalize.ref().get("digests", {}).get(name) == sha and (any(st.values()) or n_shapes or any(k.startswith(name + ":") for k, _m in self.renamed)):
+                    raise AnalysisError(f"internal: the normaliser rewrote {name} although it is identical to the reference it was generated from "
+                                        f"({ {k: v for k, v in st.items() if v} }, shapes {n_shapes})")
                 m = Module(name, path, src, tree, hashlib.sha256(raw).hexdigest())
                 self.modules[name] = m
                 self._index(m, tree, prefix="", cls=None, parent=None)
